@@ -1,5 +1,5 @@
 // harness for atomic_guarded and the whole-object load/store/operator= of guarded, guarded_opt, ordered_guarded,
-// deferred_guarded as atomic registers (C15). params: wrap=0..4 mk=0..3
+// deferred_guarded as atomic registers (C15). params: wrap=0..5 mk=0..3 (wrap=5: atomic_guarded over a trivially copyable type)
 #include "cell.hpp"
 #include "gmlc/libguarded/atomic_guarded.hpp"
 #include "gmlc/libguarded/deferred_guarded.hpp"
@@ -8,6 +8,24 @@
 #include "gmlc/libguarded/ordered_guarded.hpp"
 using vrt::Reg;
 namespace lg = gmlc::libguarded;
+
+// a trivially copyable register whose equality is NOT bytewise: `tag` differs for every value the harness builds, `==` looks
+// at `v` only (seed C15e: compare_exchange comparing object representations). Its copies are not user code, so executions
+// with it (wrap=5) carry no payload windows and are judged by the API-level monitor only.
+struct TrivReg {
+    long v = 0;
+    long tag = 0;
+    TrivReg() = default;
+    explicit TrivReg(long x, bool = false): v(x), tag(next_tag()) {}
+    bool operator==(const TrivReg& o) const { return v == o.v; }
+    long value() const { return v; }
+    static long next_tag()
+    {
+        static long t = 0;
+        return ++t;
+    }
+};
+static_assert(std::is_trivially_copyable<TrivReg>::value, "TrivReg must be trivially copyable");
 
 static std::vector<std::string> nameStore;
 static std::vector<const char*> names;
@@ -19,7 +37,7 @@ static W* mk(vrt::Exec& x)
     else return x.make<W>("w", 0L, true);
 }
 
-template<class W, int WRAP>
+template<class W, int WRAP, class Reg = vrt::Reg>
 static void run_w(vrt::Exec& x)
 {
     vrt::alias("w", "m0", "m");
@@ -78,7 +96,8 @@ static void run_mk(vrt::Exec& x)
         case 1: run_w<lg::guarded<Reg, M>, 1>(x); break;
         case 2: run_w<lg::guarded_opt<Reg, M>, 2>(x); break;
         case 3: run_w<lg::ordered_guarded<Reg, M>, 3>(x); break;
-        default: run_w<lg::deferred_guarded<Reg, M>, 4>(x); break;
+        case 4: run_w<lg::deferred_guarded<Reg, M>, 4>(x); break;
+        default: run_w<lg::atomic_guarded<TrivReg, M>, 0, TrivReg>(x); break;
     }
 }
 
